@@ -55,36 +55,53 @@ def c09_cases(tier, rnd):
                 cut = rnd.randrange(0, len(groups) + 1) if rnd.random() < 0.5 else len(groups)
                 if cut < len(groups):
                     seps[cut] = rnd.choice(DETACH)
-                cases.append((groups, seps, cut, rnd.choice(CONTEXTS), rnd.choice(['', '.', ' tail'])))
+                cases.append((groups, seps, cut, rnd.choice(CONTEXTS), rnd.choice(['', '.', ' tail']), rnd.choice(C09_NAMES)))
+    # a bracket group after a brace group belongs to the run only when it follows directly
+    for name in C09_NAMES:
+        for sep in ATTACH + DETACH[:2]:
+            for ctx in CONTEXTS[:4]:
+                cases.append(('mixed', name, sep, ctx))
     return cases
 
 
+C09_NAMES = ['foo', 'foo', 'section*', 'textbf*', 'in*', 'label*', 'bar*']      # starred names are not keys of the signature table
+
+
 def c09_text(case):
-    groups, seps, cut, ctx, tail = case
-    s = '\\foo'
+    if case[0] == 'mixed':
+        _, name, sep, ctx = case
+        return ctx % ('\\' + name + '{a}' + sep + '[b] t')
+    groups, seps, cut, ctx, tail, name = case
+    s = '\\' + name
     for (k, body), sep in zip(groups, seps):
         s += sep + (('[' + body + ']') if k == '[' else ('{' + body + '}'))
     return ctx % (s + tail)
 
 
 def c09_check(case):
-    groups, seps, cut, ctx, tail = case
     s = c09_text(case)
     out = []
-    if '$' in ctx and any(k == '[' for k, _ in groups[cut:]):
-        return out
+    if case[0] == 'mixed':
+        _, name, sep, ctx = case
+        groups, cut = [('{', 'a')] + ([('[', 'b')] if sep == '' else []), None
+        if '$' in ctx and sep != '':
+            return out
+    else:
+        groups, seps, cut, ctx, tail, name = case
+        if '$' in ctx and any(k == '[' for k, _ in groups[cut:]):
+            return out
     try:
         soup = TexSoup(s)
     except Exception as e:
         return [('rejected', 'TexSoup(%r) raised %s' % (s, type(e).__name__))]
-    cmd = find_cmd(soup, 'foo')
+    cmd = find_cmd(soup, name)
     if cmd is None:
-        return [('command-missing', 'no \\foo in the tree of %r' % s)]
+        return [('command-missing', 'no \\%s in the tree of %r' % (name, s))]
     exp = groups[:cut]
     got = [('[' if isinstance(a, BracketGroup) else '{', ''.join(str(c) for c in a._contents)) for a in cmd.args]
     # a bracket group after a brace group attaches only when it follows directly (second round of read_args)
     if got != exp:
-        out.append(('argument-run', 'arguments of \\foo in %r are %r, the separators allow exactly %r' % (s, got, exp)))
+        out.append(('argument-run', 'arguments of \\%s in %r are %r, the separators allow exactly %r' % (name, s, got, exp)))
     return out
 
 
